@@ -27,6 +27,212 @@ package gojq
 //@   property C10
 //@   ensures exact(x) && numval(x) == l * r
 
+//@ func funcOpDiv$1(l, r int) (x any)
+//@   property C10
+//@   ensures r == 0 ==> x is *zeroDivisionError
+//@   ensures r != 0 && l mod r == 0 ==> exact(x) && numval(x) * r == l
+//@   ensures r != 0 && l mod r != 0 ==> x is float64
+
+//@ func funcOpMod$1(l, r int) (x any)
+//@   property C10
+//@   ensures r == 0 ==> x is *zeroModuloError
+//@   ensures r != 0 ==> (x is int) && abs(x.(int)) < abs(r)
+//@   ensures r != 0 ==> x.(int) == 0 || ((x.(int) < 0) == (l < 0))
+//@   ensures r != 0 ==> (l - x.(int)) mod r == 0
+//@   ensures r != 0 ==> x.(int) == tmod(l, r)
+
+// *big.Int operands: exact results in a fresh integer; the operands are not written (C05).
+//@ func funcOpAdd$3(l, r *big.Int) (x any)
+//@   property C10
+//@   requires l != nil && r != nil
+//@   ensures (x is *big.Int) && fresh(x.(*big.Int)) && bigval(x.(*big.Int)) == old(bigval(l)) + old(bigval(r))
+//@   ensures forall p *big.Int :: {bigval(p)} p <= oldalloc() ==> bigval(p) == old(bigval(p))
+//@   modifies BIG
+
+//@ func funcOpSub$3(l, r *big.Int) (x any)
+//@   property C10
+//@   requires l != nil && r != nil
+//@   ensures (x is *big.Int) && fresh(x.(*big.Int)) && bigval(x.(*big.Int)) == old(bigval(l)) - old(bigval(r))
+//@   ensures forall p *big.Int :: {bigval(p)} p <= oldalloc() ==> bigval(p) == old(bigval(p))
+//@   modifies BIG
+
+//@ func funcOpMul$3(l, r *big.Int) (x any)
+//@   property C10
+//@   requires l != nil && r != nil
+//@   ensures (x is *big.Int) && fresh(x.(*big.Int)) && bigval(x.(*big.Int)) == old(bigval(l)) * old(bigval(r))
+//@   ensures forall p *big.Int :: {bigval(p)} p <= oldalloc() ==> bigval(p) == old(bigval(p))
+//@   modifies BIG
+
+//@ func funcOpDiv$3(l, r *big.Int) (x any)
+//@   property C10
+//@   requires l != nil && r != nil
+//@   ensures old(bigval(r)) == 0 ==> x is *zeroDivisionError
+//@   ensures old(bigval(r)) != 0 && old(bigval(l)) mod old(bigval(r)) == 0 ==> (x is *big.Int) && bigval(x.(*big.Int)) * old(bigval(r)) == old(bigval(l))
+//@   ensures old(bigval(r)) != 0 && old(bigval(l)) mod old(bigval(r)) != 0 ==> x is float64
+//@   ensures forall p *big.Int :: {bigval(p)} p <= oldalloc() ==> bigval(p) == old(bigval(p))
+//@   modifies BIG
+
+//@ func funcOpMod$3(l, r *big.Int) (x any)
+//@   property C10
+//@   requires l != nil && r != nil
+//@   ensures old(bigval(r)) == 0 ==> x is *zeroModuloError
+//@   ensures old(bigval(r)) != 0 ==> (x is *big.Int) && bigval(x.(*big.Int)) == tmod(old(bigval(l)), old(bigval(r)))
+//@   ensures forall p *big.Int :: {bigval(p)} p <= oldalloc() ==> bigval(p) == old(bigval(p))
+//@   modifies BIG
+
+//@ func funcOpNegate(v any) (r any)
+//@   property C10
+//@   ensures (v is int) ==> exact(r) && numval(r) == -v.(int)
+//@   ensures (v is *big.Int) ==> (r is *big.Int) && bigval(r.(*big.Int)) == -old(bigval(v.(*big.Int)))
+//@   ensures forall p *big.Int :: {bigval(p)} p <= oldalloc() ==> bigval(p) == old(bigval(p))
+//@   modifies BIG
+
+//@ func funcAbs(v any) (r any)
+//@   property C10
+//@   ensures (v is int) ==> exact(r) && numval(r) == abs(v.(int))
+//@   ensures (v is *big.Int) ==> (r is *big.Int) && bigval(r.(*big.Int)) == abs(old(bigval(v.(*big.Int))))
+//@   ensures forall p *big.Int :: {bigval(p)} p <= oldalloc() ==> bigval(p) == old(bigval(p))
+//@   modifies BIG
+
+//@ func toInt(x any) (r int, ok bool)
+//@   property C10
+//@   modifies BIG
+//@   ensures forall p *big.Int :: {bigval(p)} p <= oldalloc() ==> bigval(p) == old(bigval(p))
+//@   ensures (x is int) ==> ok && r == x.(int)
+//@   ensures (x is *big.Int) ==> ok && r == max(MinInt, min(MaxInt, bigval(x.(*big.Int))))
+//@   ensures ok == ((x is int) || (x is float64) || (x is *big.Int) || (x is json.Number))
+
+//@ func bigToFloat(x *big.Int) (f float64)
+//@   requires x != nil
+
+//@ func parseNumber(v json.Number) (r any)
+//@   property C10
+//@   ensures (r is int) || (r is float64) || (r is *big.Int)
+//@   ensures isIntLit(string(v)) ==> exact(r) && numval(r) == litval(string(v))
+//@   ensures forall p *big.Int :: {bigval(p)} p <= oldalloc() ==> bigval(p) == old(bigval(p))
+//@   modifies BIG
+
+// Integers of any representation: int, *big.Int, and integer-literal json.Number (C03: the value
+// computed does not depend on which Go representation carries a numeric input).
+//@ pred isInteger(v any) = (v is int) || ((v is *big.Int) && v.(*big.Int) != nil) || ((v is json.Number) && isIntLit(string(v.(json.Number))))
+//@ spec func intval(v any) int = (v is int) ? v.(int) : ((v is *big.Int) ? bigval(v.(*big.Int)) : litval(string(v.(json.Number))))
+
+//@ func binopTypeSwitch[any]@funcOpAdd(l, r any, callbackInts, callbackFloats, callbackBigInts, callbackStrings, callbackArrays, callbackMaps, fallback) (x any)
+//@   property C10 C03
+//@   modifies *
+//@   ensures isInteger(l) && isInteger(r) ==> exact(x) && numval(x) == old(intval(l)) + old(intval(r))
+//@   ensures forall p *big.Int :: {bigval(p)} p <= oldalloc() ==> bigval(p) == old(bigval(p))
+
+//@ func funcOpAdd(_, l, r any) (x any)
+//@   property C10 C03
+//@   modifies *
+//@   ensures isInteger(l) && isInteger(r) ==> exact(x) && numval(x) == old(intval(l)) + old(intval(r))
+//@   ensures forall p *big.Int :: {bigval(p)} p <= oldalloc() ==> bigval(p) == old(bigval(p))
+
+//@ func binopTypeSwitch[any]@funcOpSub(l, r any, callbackInts, callbackFloats, callbackBigInts, callbackStrings, callbackArrays, callbackMaps, fallback) (x any)
+//@   property C10 C03
+//@   modifies *
+//@   ensures isInteger(l) && isInteger(r) ==> exact(x) && numval(x) == old(intval(l)) - old(intval(r))
+//@   ensures forall p *big.Int :: {bigval(p)} p <= oldalloc() ==> bigval(p) == old(bigval(p))
+
+//@ func funcOpSub(_, l, r any) (x any)
+//@   property C10 C03
+//@   modifies *
+//@   ensures isInteger(l) && isInteger(r) ==> exact(x) && numval(x) == old(intval(l)) - old(intval(r))
+//@   ensures forall p *big.Int :: {bigval(p)} p <= oldalloc() ==> bigval(p) == old(bigval(p))
+
+//@ func binopTypeSwitch[any]@funcOpMul(l, r any, callbackInts, callbackFloats, callbackBigInts, callbackStrings, callbackArrays, callbackMaps, fallback) (x any)
+//@   property C10 C03
+//@   modifies *
+//@   ensures isInteger(l) && isInteger(r) ==> exact(x) && numval(x) == old(intval(l)) * old(intval(r))
+//@   ensures forall p *big.Int :: {bigval(p)} p <= oldalloc() ==> bigval(p) == old(bigval(p))
+
+//@ func funcOpMul(_, l, r any) (x any)
+//@   property C10 C03
+//@   modifies *
+//@   ensures isInteger(l) && isInteger(r) ==> exact(x) && numval(x) == old(intval(l)) * old(intval(r))
+//@   ensures forall p *big.Int :: {bigval(p)} p <= oldalloc() ==> bigval(p) == old(bigval(p))
+
+//@ func binopTypeSwitch[any]@funcOpDiv(l, r any, callbackInts, callbackFloats, callbackBigInts, callbackStrings, callbackArrays, callbackMaps, fallback) (x any)
+//@   property C10 C03
+//@   modifies *
+//@   ensures isInteger(l) && isInteger(r) && old(intval(r)) == 0 ==> x is *zeroDivisionError
+//@   ensures isInteger(l) && isInteger(r) && old(intval(r)) != 0 && old(intval(l)) mod old(intval(r)) == 0 ==> exact(x) && numval(x) * old(intval(r)) == old(intval(l))
+//@   ensures isInteger(l) && isInteger(r) && old(intval(r)) != 0 && old(intval(l)) mod old(intval(r)) != 0 ==> x is float64
+//@   ensures forall p *big.Int :: {bigval(p)} p <= oldalloc() ==> bigval(p) == old(bigval(p))
+
+//@ func funcOpDiv(_, l, r any) (x any)
+//@   property C10 C03
+//@   modifies *
+//@   ensures isInteger(l) && isInteger(r) && old(intval(r)) == 0 ==> x is *zeroDivisionError
+//@   ensures isInteger(l) && isInteger(r) && old(intval(r)) != 0 && old(intval(l)) mod old(intval(r)) == 0 ==> exact(x) && numval(x) * old(intval(r)) == old(intval(l))
+//@   ensures isInteger(l) && isInteger(r) && old(intval(r)) != 0 && old(intval(l)) mod old(intval(r)) != 0 ==> x is float64
+//@   ensures forall p *big.Int :: {bigval(p)} p <= oldalloc() ==> bigval(p) == old(bigval(p))
+
+//@ func binopTypeSwitch[any]@funcOpMod(l, r any, callbackInts, callbackFloats, callbackBigInts, callbackStrings, callbackArrays, callbackMaps, fallback) (x any)
+//@   property C10 C03
+//@   modifies *
+//@   ensures isInteger(l) && isInteger(r) && old(intval(r)) == 0 ==> x is *zeroModuloError
+//@   ensures isInteger(l) && isInteger(r) && old(intval(r)) != 0 ==> exact(x) && numval(x) == tmod(old(intval(l)), old(intval(r)))
+//@   ensures forall p *big.Int :: {bigval(p)} p <= oldalloc() ==> bigval(p) == old(bigval(p))
+
+//@ func funcOpMod(_, l, r any) (x any)
+//@   property C10 C03
+//@   modifies *
+//@   ensures isInteger(l) && isInteger(r) && old(intval(r)) == 0 ==> x is *zeroModuloError
+//@   ensures isInteger(l) && isInteger(r) && old(intval(r)) != 0 ==> exact(x) && numval(x) == tmod(old(intval(l)), old(intval(r)))
+//@   ensures forall p *big.Int :: {bigval(p)} p <= oldalloc() ==> bigval(p) == old(bigval(p))
+
+// ---------------------------------------------------------------------------------------
+// C11: the value order (compare.go)
+// ---------------------------------------------------------------------------------------
+
+//@ pred isNum(v any) = (v is int) || (v is float64) || (v is *big.Int) || (v is json.Number)
+//@ spec func rank(v any) int = (v == nil) ? 0 : ((v is bool) ? (v.(bool) ? 2 : 1) : (isNum(v) ? 3 : ((v is string) ? 4 : ((v is []any) ? 5 : ((v is map[string]any) ? 6 : 0)))))
+//@ spec func cmpf(l, r float64) int = ((l < r) || isNaN(l)) ? -1 : ((l == r) ? 0 : 1)
+//@ spec func cmps(l, r string) int = (l < r) ? -1 : ((l == r) ? 0 : 1)
+
+// cmpv is the spec order of the property statement, axiomatised per kind (DESIGN §3 C11).
+//@ spec func cmpv(a, b any) int reads BIG HE_any HMD_string_any HMV_string_any HML_string_any
+//@ spec func fd(a, b []any) int reads BIG HE_any HMD_string_any HMV_string_any HML_string_any
+//@ axiom cmpv_range: forall a, b any :: {cmpv(a, b)} -1 <= cmpv(a, b) && cmpv(a, b) <= 1
+//@ axiom cmpv_rank: forall a, b any :: {cmpv(a, b)} rank(a) != rank(b) ==> cmpv(a, b) == sign(rank(a) - rank(b))
+//@ axiom cmpv_low: forall a, b any :: {cmpv(a, b)} rank(a) == rank(b) && rank(a) < 3 ==> cmpv(a, b) == 0
+//@ axiom cmpv_int: forall a, b any :: {cmpv(a, b)} isInteger(a) && isInteger(b) ==> cmpv(a, b) == sign(intval(a) - intval(b))
+//@ axiom cmpv_float: forall a, b any :: {cmpv(a, b)} (a is float64) && (b is float64) ==> cmpv(a, b) == cmpf(a.(float64), b.(float64))
+//@ axiom cmpv_str: forall a, b any :: {cmpv(a, b)} (a is string) && (b is string) ==> cmpv(a, b) == cmps(a.(string), b.(string))
+//@ axiom fd_def: forall a, b []any :: {fd(a, b)} 0 <= fd(a, b) && fd(a, b) <= min(len(a), len(b)) &&
+//@     (forall j :: {cmpv(a[j], b[j])} 0 <= j && j < fd(a, b) ==> cmpv(a[j], b[j]) == 0) &&
+//@     (fd(a, b) < min(len(a), len(b)) ==> cmpv(a[fd(a, b)], b[fd(a, b)]) != 0)
+//@ axiom cmpv_arr: forall a, b []any :: {cmpv(a, b)} cmpv(a, b) ==
+//@     ((fd(a, b) < min(len(a), len(b))) ? cmpv(a[fd(a, b)], b[fd(a, b)]) : sign(len(a) - len(b)))
+
+//@ func typeIndex(v any) (r int)
+//@   property C11
+//@   ensures r == rank(v)
+
+//@ func lt(l, r float64) (b bool)
+//@   property C11
+//@   ensures b == ((l < r) || isNaN(l))
+
+//@ func Compare$1(l, r float64) (c int)
+//@   property C11
+//@   ensures c == cmpf(l, r)
+
+//@ func Compare$2(l, r []any) (c int)
+//@   property C11
+//@   loop 1 invariant 0 <= i && i <= min(len(l), len(r))
+//@   loop 1 invariant forall j :: {cmpv(l[j], r[j])} 0 <= j && j < i ==> cmpv(l[j], r[j]) == 0
+//@   ensures c == cmpv(l, r)
+
+//@ func Compare$4(l, r any) (c int)
+//@   property C11
+//@   ensures c == sign(rank(l) - rank(r))
+
+//@ func Compare(l, r any) (c int)
+//@   property C11
+//@   ensures c == cmpv(l, r)
+
 // ---------------------------------------------------------------------------------------
 // C01 / C20: the persistent stacks (stack.go, scope_stack.go)
 // ---------------------------------------------------------------------------------------
